@@ -406,7 +406,7 @@ class instrument:
 
     TARGETS = ["NamedTemporaryFile", "JokerSamples.write", "h5py.File", "tb.open_file", "read_batch",
                "batch_marginal_ln_likelihood", "batch_get_posterior_samples", "pool.map", "JokerSamples.unpack",
-               "JokerSamples.pack", "h5py.create_dataset", "h5py.File.close"]
+               "JokerSamples.pack", "h5py.create_dataset", "h5py.File.close", "NamedTemporaryFile.close"]
 
     def __init__(self, recorder):
         self.rec = recorder
@@ -432,6 +432,18 @@ class instrument:
             f = orig_ntf(*a, **k)
             kind, i = rec.fid(f.name)
             rec.trace.append({"s": "mkTemp", "f": i})
+            # closing the freshly created (empty) cache file is a step of its own: a failure here (close(2) reporting
+            # EIO / EDQUOT) happens while the file already exists
+            orig_close = f.close
+
+            def close():
+                try:
+                    rec.hit("NamedTemporaryFile.close")
+                except BaseException:
+                    orig_close()
+                    raise
+                return orig_close()
+            f.close = close
             return f
         self._set(tu, "NamedTemporaryFile", ntf)
 
